@@ -466,6 +466,23 @@ class MapEncoder:
                 ent["kind"], ent["field"] = codec.emit_kind(prog, fn, pv, ve)
             self.entries.append(ent)
         self._dupset()
+        self._self_mutations()
+
+    def _self_mutations(self):
+        """calls that mutate a field of self (other than the output map / the duplicate set): [(field, callee, args, bb)]"""
+        self.self_mutations = []
+        for e in self.pv.effects():
+            if e["kind"] != "call":
+                continue
+            p = e["place"]
+            base = p
+            fld = None
+            while base[0] in ("field", "deref", "variant"):
+                if base[0] == "field" and base[1] in (("param", 0), ("deref", ("param", 0))):
+                    fld = base[2]
+                base = base[1]
+            if fld is not None and base == ("param", 0):
+                self.self_mutations.append((fld, e["callee"], [show(a)[:60] for a in e["args"][1:]], e["bb"]))
 
     def _dupset(self):
         """BTreeSet operations of the encoder: inserts of constant labels (typed entries) and the
